@@ -244,6 +244,29 @@ def _sspoc_part(ctx):
                            "required": "distinct valid indices, count == n_sensors", "index": idx})
         elif 0 < len(sel) < nf:
             ctx.nontriv(("sspoc", bk, tuple(sel)))
+        if bad:
+            continue
+        # counts around the number of informative sensors (the solvers leave exact zeros: ties at the cut-off)
+        coef = np.abs(np.asarray(model.sensor_coef_))
+        mag = coef if coef.ndim == 1 else coef.max(axis=1)
+        nnz = int(np.count_nonzero(mag))
+        for k in sorted({min(nf, nnz + 1), min(nf, nnz + 2), max(0, nnz - 1), rng.randint(0, nf)}):
+            try:
+                model.update_sensors(n_sensors=k, quiet=True)
+            except Exception as e:
+                ctx.count("sspoc_update_exception:" + type(e).__name__)
+                break
+            sel = np.array(model.selected_sensors).tolist()
+            ctx.evaluations += 1
+            if (len(set(sel)) != len(sel)) or any((not 0 <= s < nf) for s in sel) or len(sel) != k or model.n_sensors != k:
+                ctx.violation("concrete", f"SSPOC.update_sensors(n_sensors={k}) selects {sel} (n_sensors={model.n_sensors}) over {nf} sensors, "
+                                          f"{nnz} of them with non-zero weight",
+                              {"signature": "sspoc-selection", "case": desc, "update_n_sensors": k,
+                               "observed": {"selected": sel, "n_sensors": model.n_sensors},
+                               "required": "distinct valid indices, count == n_sensors", "index": idx})
+                break
+            if k > nnz:
+                ctx.nontriv(("sspoc-zeros", bk, k, nnz))
 
 
 def replay(ctx: C.Ctx, payload):
